@@ -1,6 +1,8 @@
 package main
 
 import (
+	"os"
+	"runtime/debug"
 	"fmt"
 	"go/types"
 	"math/big"
@@ -107,6 +109,9 @@ func (p *Program) verifyUnitOnce(u *Unit, splitVal *big.Int, sitePrefix string) 
 	func() {
 		defer func() {
 			if r := recover(); r != nil {
+				if os.Getenv("GOVC_TRACE") != "" {
+					fmt.Fprintf(os.Stderr, "%s\n", debug.Stack())
+				}
 				x.errorf("%s: engine panic: %v", u.Name, r)
 			}
 		}()
